@@ -42,6 +42,12 @@ CHECKS = {
     "C12": dict(engine="codec(+libFuzzer)", technique=PBT + "generated contexts (boundary classes) and near-valid traceparent strings (22 mutation kinds) + coverage-guided libFuzzer target with the same oracle; oracle: round trip, fixed output form, differential against an independent reference parser, no panic",
                 text="Exploration: 780k generated cases per quick run; thorough adds 42M cases and a 3 min libFuzzer campaign (oracle inside the target).",
                 note="The reference parser implements only the property's sentence; inputs that are valid hex but not canonical are only required to decode to the denoted values when accepted."),
+    "C13": dict(engine="core(api+sched)", technique=PBT + "scripted inner futures whose per-poll actions are generated, wrapped by in_span/enter_on_poll and driven by generated poll/drop operations from generated vthreads; oracle: local parent inside each poll, frame condition after it, span delivered exactly at completion/drop (cycle deadline + monotonic bracket), final poll's recordings in the delivered trace, one enter_on_poll span per poll",
+                text="Exploration: 13.5k API cases (real flush() cycles) and 8.4k scheduled cases (collector steps inside the completing poll) per quick run, both configurations.",
+                note="The inner future is the harness's scripted object; executors, wakers and real I/O are out of scope. Same trusted base as C01 for the scheduled part."),
+    "C14": dict(engine="core(api+sched)", technique=PBT + "scripted inner streams/sinks wrapped by fastrace_futures::in_span with generated call sequences over the five entry points; oracle as C13 per entry point",
+                text="Exploration: 13.5k API cases and 8.4k scheduled cases per quick run, both configurations.",
+                note="For poll_close -> Ready(Err) only exactly-once delivery and 'not before that call' are asserted."),
     "C16": dict(engine="core(disabled+api)", technique=PBT + "the same generated programs compiled against fastrace without the enable feature, and with it for non-recording spans; oracle: invocation counters in every closure, zero report() calls, no threads, None contexts/elapsed, empty conversions",
                 text="Exploration: 12k programs against the disabled build and 12k against the enabled build (no-op derived spans, no local parent) per quick run.",
                 note="Thread check reads /proc/self/task of the worker process."),
